@@ -12,7 +12,31 @@ B = 2 ** 10
 BOUNDS = 'near, far-near, right-left, top-bottom >= 2^-10; all window parameters in [-2^10, 2^10]; perspective frusta have near >= 2^-10'
 
 
-def frustum_raw(e, T, ortho, name='f'):
+F_ = Fraction
+
+
+def boxed(vs, Bd):
+    out = []
+    for v in vs:
+        v = R(v)
+        if not v.conc(): out.append(AND(v.n >= -Bd, v.n <= Bd))
+        elif abs(v.frac()) > Bd: out.append(False)
+    return out
+
+
+CAMERAS = [('identity_translated', [[1, 0, 0], [0, 1, 0], [0, 0, 1]], [1, -2, 3]),
+           ('yaw90', [[0, 0, -1], [0, 1, 0], [1, 0, 0]], [0, 0, 0]),
+           ('roll90', [[0, 1, 0], [-1, 0, 0], [0, 0, 1]], [2, 0, -1]),
+           # yaw by atan(3/4) then roll by atan(5/12): rational rotation with no zero entry pattern to hide behind
+           ('yaw_roll_rational', None, [1, 1, 1])]
+def _mm3(A, Bm): return [[sum(A[i][k] * Bm[k][j] for k in range(3)) for j in range(3)] for i in range(3)]
+CAMERAS[3] = ('yaw_roll_rational', _mm3([[F_(4, 5), 0, F_(-3, 5)], [0, 1, 0], [F_(3, 5), 0, F_(4, 5)]], [[F_(12, 13), F_(5, 13), 0], [F_(-5, 13), F_(12, 13), 0], [0, 0, 1]]), [1, 1, 1])
+FRUSTA = [('symmetric', [F_(1), F_(100), F_(-1, 8), F_(1, 8), F_(1, 8), F_(-1, 8)], False),
+          ('asymmetric', [F_(1), F_(10), F_(-1, 4), F_(1, 2), F_(3, 4), F_(-1, 8)], False),
+          ('ortho', [F_(1, 2), F_(8), F_(-2), F_(1), F_(3), F_(-1)], True)]
+
+
+def frustum_raw(e, T, ortho, name='f', concrete=None):
     """Raw argument describing a Frustum<T> object (vptr, six planes, bool) from the IR's own layout"""
     f = e.m.funcs['@w_fr_proj' + T]
     ty = f.params[0][0].to
@@ -20,6 +44,9 @@ def frustum_raw(e, T, ortho, name='f'):
     offs = [L.fieldoff(rt, i) for i in range(len(rt.fields))]
     # fields: vptr, near, far, left, right, top, bottom, ortho
     names = ['near', 'far', 'left', 'right', 'top', 'bottom']
+    if concrete is not None:
+        fields = [(offs[0], 'p', None)] + [(offs[1 + i], 'c', ('%s_%s' % (name, names[i]), concrete[i])) for i in range(6)] + [(offs[7], 'i', (1 if ortho else 0, 1))]
+        return Raw(name, L.sizeof(rt), fields)
     fields = [(offs[0], 'p', None)] + [(offs[1 + i], 'r', '%s_%s' % (name, names[i])) for i in range(6)] + [(offs[7], 'i', (1 if ortho else 0, 1))]
     return Raw(name, L.sizeof(rt), fields)
 
@@ -137,6 +164,59 @@ def cases(e, T):
     ident = {i: (1 if i % 5 == 0 else 0) for i in range(16)}
     add('O8.FrustumTest_isVisible_point', 'w_ft_visible_point{T}', [F, In('cam', 16, fixed=ident), In('p', 3)], vis, False, budget=900, timeout_ms=60000, core=False, tier='thorough',
         desc='FrustumTest::isVisible(point) <=> the point is strictly inside the frustum (identity camera, perspective)')
+    # ---- FrustumTest culling for pinned frusta and cameras, every box / sphere / point (all quantities exact rationals)
+    for cname, R3, tr in CAMERAS:
+        for fname, fv, fortho in FRUSTA:
+            FC = frustum_raw(e, T, fortho, concrete=fv)
+            cam = {}
+            for i in range(3):
+                for j in range(3): cam[4 * i + j] = R3[i][j]
+                cam[4 * i + 3] = 0
+            for j in range(3): cam[12 + j] = tr[j]
+            cam[15] = 1
+            def inside(p, strict, R3=R3, tr=tr, fv=fv, fortho=fortho):
+                """p (world) inside the frustum: camera-space q = (p - tr) * R^T"""
+                d = [rsub(p[i], rz(tr[i])) for i in range(3)]
+                q = [rsum(rmul(d[j], rz(R3[i][j])) for j in range(3)) for i in range(3)]
+                n, f, l, r, t, b = [rz(x) for x in fv]
+                cmp = lt if strict else le
+                z = rneg(q[2])
+                if fortho:
+                    return AND(cmp(n, z), cmp(z, f), cmp(l, q[0]), cmp(q[0], r), cmp(b, q[1]), cmp(q[1], t))
+                return AND(cmp(n, z), cmp(z, f), cmp(rmul(l, z), rmul(q[0], n)), cmp(rmul(q[0], n), rmul(r, z)), cmp(rmul(b, z), rmul(q[1], n)), cmp(rmul(q[1], n), rmul(t, z)))
+            def boxvis(I, O, X, inside=inside):
+                bx = I['b']; p = [X.free('p%d' % i) for i in range(3)]
+                inb = AND(*[AND(le(bx[i], p[i]), le(p[i], bx[3 + i])) for i in range(3)])
+                return [('a box holding a point strictly inside the frustum is never reported invisible', IMPLIES(AND(inb, inside(p, True)), asb(O['ret'])))]
+            def boxin(I, O, X, inside=inside):
+                bx = I['b']; p = [X.free('p%d' % i) for i in range(3)]
+                inb = AND(*[AND(le(bx[i], p[i]), le(p[i], bx[3 + i])) for i in range(3)])
+                return [('completelyContains(box) => every point of the box is inside the (closed) frustum', IMPLIES(AND(asb(O['ret']), inb), inside(p, False)))]
+            def sphvis(I, O, X, inside=inside):
+                c = I['s'][:3]; rad = I['s'][3]; p = [X.free('p%d' % i) for i in range(3)]
+                ins = le(norm2(vsub(p, c)), rmul(rad, rad))
+                return [('a sphere holding a point strictly inside the frustum is never reported invisible', IMPLIES(AND(ins, inside(p, True)), asb(O['ret'])))]
+            def sphin(I, O, X, inside=inside):
+                c = I['s'][:3]; rad = I['s'][3]; p = [X.free('p%d' % i) for i in range(3)]
+                ins = le(norm2(vsub(p, c)), rmul(rad, rad))
+                return [('completelyContains(sphere) => every point of the sphere is inside the (closed) frustum', IMPLIES(AND(asb(O['ret']), ins), inside(p, False)))]
+            def ptvis(I, O, X, inside=inside):
+                return [('isVisible(point) <=> the point is strictly inside the frustum', AND(IMPLIES(asb(O['ret']), inside(I['p'], True)), IMPLIES(inside(I['p'], True), asb(O['ret']))))]
+            boxpre = lambda I: boxed(I['b'], 64) + [le(I['b'][i], I['b'][3 + i]) for i in range(3)]
+            sphpre = lambda I: boxed(I['s'][:3], 64) + [le(rz(0), I['s'][3]), le(I['s'][3], rz(64))]
+            bnd = 'frustum %s = %s (%s), camera %s (exact rational rotation + translation): pinned; every box / sphere / point with coordinates in [-64, 64]' % (fname, [str(x) for x in fv], 'orthographic' if fortho else 'perspective', cname)
+            kw = dict(setup=lambda sym: contracts.install(sym, sym.m), pre=None, sample=None, nvalid=0, bounds=bnd, budget=120, timeout_ms=15000)
+            tag = '%s.%s' % (cname, fname)
+            def mk(nm, fn, args, claim, pre, desc):
+                k2 = dict(kw); k2['pre'] = pre
+                if cname == 'yaw_roll_rational' and nm.startswith('sphere'): k2.update(budget=600, timeout_ms=80000, tier='thorough', core=False)   # quadratic claim over six nested radicals: not decided in 130 s
+                cs.append(Case('O9.FrustumTest.%s.%s.%s' % (nm, tag, T), fn.replace('{T}', T), args, claim, T=T, desc=desc, **k2))
+            CAM = In('cam', 16, fixed=cam)
+            mk('box_visible', 'w_ft_visible_box{T}', [FC, CAM, In('b', 6)], boxvis, boxpre, 'FrustumTest::isVisible(box) is never false for a box that touches the frustum interior')
+            mk('box_contained', 'w_ft_contains_box{T}', [FC, CAM, In('b', 6)], boxin, boxpre, 'FrustumTest::completelyContains(box) is never true for a box with a point outside the frustum')
+            mk('sphere_visible', 'w_ft_visible_sphere{T}', [FC, CAM, In('s', 4)], sphvis, sphpre, 'FrustumTest::isVisible(sphere) is never false for a sphere that touches the frustum interior')
+            mk('sphere_contained', 'w_ft_contains_sphere{T}', [FC, CAM, In('s', 4)], sphin, sphpre, 'FrustumTest::completelyContains(sphere) is never true for a sphere with a point outside the frustum')
+            mk('point_visible', 'w_ft_visible_point{T}', [FC, CAM, In('p', 3)], ptvis, lambda I: boxed(I['p'], 64), 'FrustumTest::isVisible(point) <=> strictly inside')
     return cs
 
 
